@@ -199,7 +199,8 @@ def binop(ex, op, a, b):
     if isinstance(a, (list, tuple)) and isinstance(b, (list, tuple)) and isinstance(op, ast.Add):
         return type(a)(list(a) + list(b))
     if isinstance(a, str) and isinstance(b, str) and isinstance(op, ast.Add):
-        return "<str>"
+        opaque = ("<str>", "<fstring>", "<repr>")
+        return "<str>" if (a in opaque or b in opaque) else a + b
     if isinstance(a, str) or isinstance(b, str):
         if isinstance(op, ast.Add):
             return "<str>"
@@ -234,6 +235,10 @@ def compare(ex, op, a, b):
         if isinstance(r, T):
             return r if isinstance(op, ast.In) else tm.lnot(r)
         return r if isinstance(op, ast.In) else not r
+    if isinstance(a, (set, frozenset)) and isinstance(b, (set, frozenset)) and all(isinstance(x_, str) for x_ in list(a) + list(b)):
+        table = {ast.LtE: a <= b, ast.Lt: a < b, ast.GtE: a >= b, ast.Gt: a > b, ast.Eq: a == b, ast.NotEq: a != b}
+        if type(op) in table:
+            return table[type(op)]
     if isinstance(a, sx.StrSym) or isinstance(b, sx.StrSym):
         sym, other = (a, b) if isinstance(a, sx.StrSym) else (b, a)
         if not isinstance(other, str) or not isinstance(op, (ast.Eq, ast.NotEq)):
@@ -408,6 +413,8 @@ def getitem(ex, o, idx):
             return sx._select(list(o), idx, lambda x: x)
         raise OutOfSubset("symbolic index into a python sequence")
     if isinstance(o, dict):
+        if isinstance(idx, str) and idx in ("<str>", "<fstring>", "<repr>"):
+            raise OutOfSubset("mapping lookup with a computed string key")
         if idx not in o:
             raise Raised("KeyError", str(idx))
         return o[idx]
@@ -466,6 +473,8 @@ def arr_getitem(ex, a, idx):
         return v
     if not isinstance(idx, tuple):
         idx = (idx,)
+    if any(ix is None or ix is Ellipsis or isinstance(ix, LibV) for ix in idx):
+        raise OutOfSubset("np.newaxis / Ellipsis in an index")
     if len(idx) > a.ndim:
         raise Raised("IndexError", "too many indices")
     if a.mask is not None:
@@ -638,6 +647,8 @@ def arr_setitem(ex, a, idx, val):
 
 
 def table_getitem(ex, t, idx):
+    if isinstance(idx, str) and idx in ("<str>", "<fstring>", "<repr>"):
+        raise OutOfSubset("column lookup with a computed string key")
     if isinstance(idx, str):
         if idx not in t.cols:
             raise Raised("KeyError", idx)
@@ -1082,6 +1093,26 @@ def b_hasattr(ex, o, name):
     raise OutOfSubset(f"hasattr on {type(o).__name__}")
 
 
+class PartialV:
+    """functools.partial(f, *args, **kw): calling it calls f with the stored arguments first"""
+
+    def __init__(self, f, args, kw):
+        self.f, self.args, self.kw = f, list(args), dict(kw)
+
+    def __call_model__(self, ex, *args, **kw):
+        k2 = dict(self.kw)
+        k2.update(kw)
+        f = self.f
+        a = self.args + list(args)
+        if isinstance(f, FuncV) and ex.nested_should_merge(f):
+            return ex.call_merged(f, a, k2)
+        return ex.call(f, a, k2)
+
+
+class SentinelV:
+    """object(): a fresh value equal only to itself"""
+
+
 def b_vars(ex, o):
     if isinstance(o, ObjV):
         return sx.DictProxy(o)
@@ -1126,13 +1157,14 @@ BUILTINS = {
     "enumerate": LibFn("enumerate", lambda ex, it: EnumV(it)),
     "list": LibFn("list", lambda ex, it=(): it if isinstance(it, (MapList, ZipArr)) else list(ex.iterate(it))),
     "tuple": LibFn("tuple", lambda ex, it=(): tuple(ex.iterate(it))),
-    "set": LibFn("set", lambda ex, it=(): set(ex.iterate(it))),
+    "set": LibFn("set", lambda ex, it=(): set(it.cols.keys()) if isinstance(it, TableV) else set(ex.iterate(it))),
     "dict": LibFn("dict", lambda ex, it=(), **kw: dict(it, **kw) if isinstance(it, dict) else dict(ex.iterate(it), **kw)),
     "range": LibFn("range", b_range),
     "isinstance": LibFn("isinstance", b_isinstance),
     "hasattr": LibFn("hasattr", b_hasattr),
     "getattr": LibFn("getattr", b_getattr),
     "vars": LibFn("vars", b_vars),
+    "object": LibFn("object", lambda ex: SentinelV()),
     "dict_type": None,
     "str": LibFn("str", lambda ex, v="": "<str>"),
     "repr": LibFn("repr", lambda ex, v="": "<str>"),
@@ -1332,7 +1364,7 @@ def np_result_type(ex, *args):
     return DTypeV("i4")
 
 
-def np_linspace(ex, a, b, n):
+def np_linspace(ex, a, b, n=50):
     a, b, n = (tm.lift(num(x)) for x in (a, b, n))
     used(ex, "np.linspace(a, b, N)[j] = a + j (b - a) / (N - 1)")
     ar = Arith(ex, list(ex.pc))
@@ -1413,10 +1445,25 @@ def np_any(ex, v):
     if n is not None and v.mask is None:
         return tm.lor(*[f((tm.const(j),)) for j in range(n)])
     # symbolic: a boolean with defining facts: any <=> exists j.  We expose: not any => forall j not elem
+    # (one boolean per distinct array expression: a nested call that is re-executed path by path must see the SAME symbol)
+    Jk = tm.var("#anyidx", tm.I)
+    key = (v.shape[0], f((Jk,)), (v.mask((Jk,)) if v.mask is not None else None))
+    memo = ex.ghost.setdefault("any_by_key", {})
+    if key in memo:
+        b, fact, qfact = memo[key]
+        # the defining facts are unconditional: every (nested) execution that meets the expression carries them
+        if fact not in ex.facts:
+            ex.facts.append(fact)
+        if qfact not in ex.qfacts:
+            ex.qfacts.append(qfact)
+        return b
     b = ex.fresh_var("any", tm.B)
     k = tm.app(f"anyidx{b.args[0]}", (), tm.I)
-    ex.facts.append(tm.implies(b, tm.land(tm.le(tm.const(0), k), tm.lt(k, v.shape[0]), f((k,)))))
-    ex.qfacts.append(lambda j, b=b, f=f, n=v.shape[0]: tm.implies(tm.land(tm.lnot(b), tm.le(tm.const(0), j), tm.lt(j, n)), tm.lnot(f((j,)))))
+    fact = tm.implies(b, tm.land(tm.le(tm.const(0), k), tm.lt(k, v.shape[0]), f((k,))))
+    qfact = (lambda j, b=b, f=f, n=v.shape[0]: tm.implies(tm.land(tm.lnot(b), tm.le(tm.const(0), j), tm.lt(j, n)), tm.lnot(f((j,)))))
+    memo[key] = (b, fact, qfact)
+    ex.facts.append(fact)
+    ex.qfacts.append(qfact)
     ex.ghost.setdefault("any", []).append((b, k, f, v.shape[0]))
     used(ex, "np.any over an array: true iff some element is true")
     return b
@@ -1990,12 +2037,14 @@ for _mod in ("numpy",):
     REGISTRY[_mod + ".int64"] = DTypeV("i8")
     REGISTRY[_mod + ".int32"] = DTypeV("i4")
     REGISTRY[_mod + ".inf"] = tm.INF
+    REGISTRY[_mod + ".newaxis"] = None
     REGISTRY[_mod + ".ndarray"] = "ndarray"
 
 _reg("math.exp", lambda ex, x: tm.exp(tm.lift(num(x))))
 _reg("math.log", lambda ex, x: Arith(ex).log(tm.lift(num(x))))
 _reg("math.sqrt", lambda ex, x: Arith(ex).sqrt(tm.lift(num(x))))
 _reg("math.fabs", lambda ex, x: tm.absv(tm.toreal(tm.lift(num(x)))))
+_reg("functools.partial", lambda ex, f, *a, **k: PartialV(f, a, k))
 _reg("copy.copy", copy_copy)
 _reg("copy.deepcopy", copy_deepcopy)
 _reg("warnings.warn", lambda ex, *a, **k: None)
@@ -2024,11 +2073,15 @@ BUILTINS["RuntimeWarning"] = "RuntimeWarning"
 # ---- root finding / optimisation / quadrature -------------------------------------------------
 
 
-def brentq(ex, f, a, b, xtol=None, rtol=None, maxiter=None, **kw):
-    """scipy.optimize.brentq(f, a, b): ValueError unless f(a) f(b) < 0 (or an end point is a root);
-    otherwise returns r with a <= r <= b and f(r) = 0 (idealised to xtol / rtol)."""
+def brentq(ex, f, a, b, args=(), xtol=None, rtol=None, maxiter=None, **kw):
+    """scipy.optimize.brentq(f, a, b, args): ValueError unless f(a, *args) f(b, *args) < 0 (or an end point is a root);
+    otherwise returns r with a <= r <= b and f(r, *args) = 0 (idealised to xtol / rtol)."""
     if kw:
         raise OutOfSubset(f"brentq options {sorted(kw)}")
+    extra = list(args) if isinstance(args, (tuple, list)) else [args]
+    if extra:
+        f0 = f
+        f = LibFn("brentq objective with args", lambda ex2, x_: (ex2.call_merged(f0, [x_] + extra) if isinstance(f0, FuncV) else ex2.call(f0, [x_] + extra)))
     a, b = tm.lift(num(a)), tm.lift(num(b))
     used(ex, "scipy.optimize.brentq: ValueError unless f(a) f(b) <= 0; else a <= r <= b and f(r) = 0 (idealised)")
     fa = ex.call_merged(f, [a]) if isinstance(f, FuncV) else ex.call(f, [a])
